@@ -80,7 +80,7 @@ Inductive ll_result :=
 | Panic (site : nat)
 | BadInput.              (* the token list contains a skip token type or EOI: not a list of significant tokens *)
 
-Definition ltok := (N * N)%type.       (* token type, location id *)
+Notation ltok := (N * N)%type (only parsing).       (* token type, location id *)
 
 Definition LOC_DEFAULT : N := 0.
 Definition LOC_FILE : N := 1.
